@@ -6,8 +6,56 @@ LABELS = ['C07.InstanceGraph', 'C07.LocalIsolated', 'C07.Accuracy', 'C07.Fence',
           'C07.ViewConsistent']
 
 
+SEQ_RESULTS = []
+
+
+def lost_processes(tier, seed, tail):
+    """'every process it was running being reported FATAL and no longer counted as running there': runs with process
+    activity (C12 machinery: ReplicaMon) - instances lost with and without auto_fence while processes run on them,
+    after other instances joined or restarted (their records are fresher) - judged on C07.LostProcessFatal."""
+    import random
+    import vlib
+    import c12
+    v = vlib.Verdict('C07', tier, seed)
+    rnd = random.Random(seed * 4099 + 7)
+    scs = c12.fenced_loss(tier)
+    for fence in (False, True):
+        for sched in ('canonical', 5):
+            # B restarts (or joins late) after the process was started on A: B's record is the freshest; then A is lost
+            scs.append({'strategy': 'USER', 'sched': sched, 'steps': 140, 'late': {}, 'auto_fence': fence,
+                        'events': [[10, 'start', 'n2', 'app:d1'], [30, 'restart', 'n3'], [80, 'crash', 'n2']]})
+            scs.append({'strategy': 'USER', 'sched': sched, 'steps': 140, 'late': {'n3': 40}, 'auto_fence': fence,
+                        'events': [[10, 'start', 'n2', 'app:d1'], [12, 'start', 'n2', 'unm:u1'], [120, 'crash', 'n2']]})
+            # a copy ran and was stopped on B in between (B's STOPPED record is the freshest); then A is lost
+            scs.append({'strategy': 'USER', 'sched': sched, 'steps': 140, 'late': {}, 'auto_fence': fence,
+                        'events': [[10, 'start', 'n2', 'app:d1'], [14, 'start', 'n3', 'app:d1'],
+                                   [40, 'stop', 'n3', 'app:d1'], [90, 'crash', 'n2']]})
+    for k in range(20 if tier == 'quick' else 600):
+        sc = c12.gen_random(rnd, k)
+        sc['events'].append([rnd.randrange(60, 140), 'crash', rnd.choice(['n2', 'n3'])])
+        scs.append(sc)
+    n_tr, n_st = 0, 0
+    for lo in range(0, len(scs), 300):
+        part = scs[lo:lo + 300]
+        traces = c12.run_scenarios(part)
+        c12.judge(v, traces, part, labels={'C07.LostProcessFatal'})
+        n_tr += len(traces)
+        n_st += sum(len(t['steps']) for t in traces)
+    SEQ_RESULTS.append((v, n_tr, n_st))
+    return []
+
+
 def main(tier, seed, replay=None):
     if replay:
+        import json
+        with open(replay) as f:
+            rep = json.load(f)['replay']
+        if 'scenario' in rep:
+            import vlib
+            import c12
+            v = vlib.Verdict('C07', tier, seed)
+            c12.judge(v, c12.run_scenarios([rep['scenario']]), [rep['scenario']], labels={'C07.LostProcessFatal'})
+            return v.finish()
         return cc.replay_file(replay)
     q = tier == 'quick'
     e1 = [cl.Config(n=2, crash=1, restart=1, cut=1, rounds=9),
@@ -32,6 +80,6 @@ def main(tier, seed, replay=None):
     return cc.run('C07', tier, seed, LABELS, [], e1, [], ['StepsC07'], sim, rnd,
                   n_beh=48 if q else 400, beh_depth=150, n_rnd=40 if q else 400, rnd_steps=250,
                   e1_timeout=600 if q else 1500, inject=False,
-                  extra_scenarios=[cl.hold_distribution_scenarios],
+                  extra_scenarios=[cl.hold_distribution_scenarios, cl.stealth_restart_scenarios, lost_processes],
                   notes=['the process part of C07 (processes of a lost instance become FATAL) is decided with C11 '
                          '(Invalidate) and C12'])
